@@ -6,9 +6,7 @@ VERIF = os.path.dirname(os.path.dirname(os.path.abspath(__file__)))
 def sh(cmd, **kw): return subprocess.run(cmd, capture_output=True, text=True, **kw)
 def main():
     pref = sys.argv[1:]
-    saved = os.path.join(VERIF, "build", "evidence.saved.rerun"); shutil.rmtree(saved, ignore_errors=True)
-    shutil.copytree(os.path.join(VERIF, "evidence"), saved)
-    try:
+    if True:   # (check.py writes evidence only for runs against /repo itself)
         for mf in sorted(glob.glob(os.path.join(VERIF, "seeded", "*", "meta.json"))):
             m = json.load(open(mf)); sid = m["seeded_id"]
             if pref and not any(sid.startswith(p) for p in pref): continue
@@ -33,7 +31,5 @@ def main():
                 print(sid, {p: (r["verdict"], r["class"]) for p, r in res.items()}, flush=True)
             finally:
                 subprocess.call(["git", "-C", "/repo", "worktree", "remove", "--force", d]); shutil.rmtree(d, ignore_errors=True)
-    finally:
-        shutil.rmtree(os.path.join(VERIF, "evidence")); shutil.copytree(saved, os.path.join(VERIF, "evidence")); shutil.rmtree(saved)
 if __name__ == "__main__":
     main()
